@@ -125,6 +125,21 @@ def r_stub(db, rep):
                          "%s: the `%s == 0` branch does not end in a return; control reaches the real search" % (f.qn, fld), f.qn)
 
 
+def _tag_narrowed(f, first_load, var):
+    """The tag is read as a W-bit value but kept in a narrower variable before it is compared: (bits read, bits kept) or None."""
+    lt = f.type(first_load)
+    if var is None or not lt:
+        return None
+    for n in f.nodes():
+        if n["k"] == "DeclStmt":
+            for d in n["decls"]:
+                if d.get("d") == var:
+                    vt = f.types[d["t"]]
+                    if vt.get("bits") and lt.get("bits") and vt["bits"] < lt["bits"]:
+                        return (lt["bits"], vt["bits"])
+    return None
+
+
 def tag_check_in_loader(db, f, rep):
     """K::load: first value read from the stream is compared against a constant T and the function
     returns NULL (before any allocation) when it differs. Returns (T value, T name) or None."""
@@ -157,7 +172,7 @@ def tag_check_in_loader(db, f, rep):
                 for a, b in ((l, r), (r, l)):
                     if ((var is not None and a["k"] == "DeclRefExpr" and a.get("d") == var) or a is first_load) and const_value(b) is not None:
                         return {"value": const_value(b), "name": strip(b).get("n", str(const_value(b))), "if": n,
-                                "cond": c, "var": var, "load": first_load}
+                                "cond": c, "var": var, "load": first_load, "narrow": _tag_narrowed(f, first_load, var)}
     return None
 
 
@@ -176,6 +191,17 @@ def r_tags(db, rep):
             switch = n
     if switch is None:
         raise AnalysisBroken("StringDictionary::load has no switch on the tag")
+    # the scrutinee keeps all the bits that were read
+    rep.ob()
+    sc = strip(switch.get("cond")) if switch.get("cond") is not None else None
+    if sc is not None and sc["k"] == "DeclRefExpr" and sc.get("dk") == "local":
+        ini = single_def_init(gl, sc["d"])
+        st, it = gl.type(sc), (gl.type(strip(ini)) if ini is not None else None)
+        if ini is not None and strip(ini)["k"] == "CallExpr" and callee_name(strip(ini)) == "loadValue" and st and it and \
+                st.get("bits") and it.get("bits") and st["bits"] < it["bits"]:
+            rep.viol("StringDictionary::load#tag-narrowed", gl.nloc(switch),
+                     "the generic loader reads a %d-bit tag but switches on its low %d bits: unknown tags that agree in those bits reach a kind's loader" % (
+                         it["bits"], st["bits"]), gl.qn)
     body = switch["body"].get("c", [])
     cur = []
     default_null = False
@@ -224,6 +250,11 @@ def r_tags(db, rep):
                      "%s does not compare the first value of the image with its own tag and bail out" % ld.qn, ld.qn)
             continue
         tags[k] = tc
+        rep.ob()
+        if tc.get("narrow"):
+            rep.viol(k + "::load#tag-narrowed", ld.nloc(tc["if"]),
+                     "%s reads a %d-bit tag but compares only its low %d bits: unknown tags that agree in those bits are accepted" % (
+                         ld.qn, tc["narrow"][0], tc["narrow"][1]), ld.qn)
         # the rejecting branch returns NULL
         rep.ob()
         rets = [n for n in walk(tc["if"]["then"]) if n["k"] == "ReturnStmt"]
